@@ -18,10 +18,10 @@ LEVEL = 'exploration'
 CASE_GUARD_S = {'quick': 300, 'thorough': 3600}  # a case is a composite (a block of expressions x all texts, ...)
 CHUNK = 4
 RULE = ('documents = sequences of <= 4 (thorough 5) items over 17 line kinds (header of each of the 6 phases, unknown header, malformed header, comment, blank, whitespace-only, '
-        'one-line instruction, multi-line instruction whose here-document holds a header-like and a comment-like line, instruction with description on the previous / same line, '
+        'one-line instruction, multi-line instruction whose here-document holds a header-like and a comment-like line, instruction with description on the previous / same line, with a two-line description followed by an indented instruction, '
         'escaped header line, act-like text line) with and without final newline; all order-preserving permutations of the phase blocks of the valid documents with <= 4 blocks; '
         'inclusion graphs: main = every sequence of <= 4 (thorough 5) items over {[setup], [assert], instruction, including a, including b} x 9 variants of a x 5 of b (self inclusion, a<->b cycle, '
-        'cycle back to main, diamond, same file twice, file in sub-directory including its parent\'s sibling, missing file, phase changes inside included files); '
+        'cycle back to main, diamond, same file twice, file in sub-directory including its parent\'s sibling, missing file, phase changes inside included files); an included file that is a symbolic link into another directory and includes by relative name (the named file and line hold the shown source line); '
         'non-trivial = the document has at least one instruction or one error; distinct by construction')
 ASSUMPTIONS = [
     'instructions are `def string NAME = v` (valid in every instruction phase); identity of an element = the symbol name it defines',
@@ -64,6 +64,7 @@ def items():
     it.append(('insml', None, ['def string S{k} = <<EOF', '[assert]', '# x', 'EOF']))
     it.append(('insdesc', None, ['`d`', 'def string S{k} = v']))
     it.append(('insdesc1', None, ['`d` def string S{k} = v']))
+    it.append(('insdesc', None, ['`a description', 'of two lines`', '  \tdef string S{k} = v']))   # description ends on its own line, the instruction is indented
     it.append(('escaped', None, ['\\[x]']))
     it.append(('indented', None, ['   def string S{k} = v   ']))
     return it
@@ -124,9 +125,9 @@ def expect(meta):
         if kind == 'escaped':
             return ('err', start)
         if cur == 'conf':
-            return ('err', start if kind != 'insdesc' else start + 1)
+            return ('err', start if kind != 'insdesc' else start + len(ls) - 1)
         if kind == 'insdesc':
-            out[cur].append([start + 1, ls[1:]])
+            out[cur].append([start + len(ls) - 1, ls[-1:]])
         elif kind == 'insdesc1':
             out[cur].append([start, [ls[0][4:]]])
         elif kind == 'indented':
@@ -203,6 +204,10 @@ def cases(tier):
             yield ('incl', av, bv)
     for i in range(len(CLI_ERRORS)):
         yield ('cli-error', i)
+    for variant in ('both', 'both-deeper'):
+        for errkind in range(3):
+            for how in ('relative', 'absolute'):
+                yield ('cli-symlink', variant, errkind, how)
     for layout in range(len(CHAIN_LAYOUTS)):
         for kind in range(len(CHAIN_ERRORS)):
             for how in ('relative', 'absolute'):
@@ -228,6 +233,8 @@ def run(case) -> Result:
         _cli_error(res, case)
     elif k == 'cli-chain':
         _cli_chain(res, case)
+    elif k == 'cli-symlink':
+        _cli_symlink(res, case)
     return res
 
 
@@ -547,6 +554,55 @@ CHAIN_LAYOUTS = [('a.case', 'b.xly', 'c.xly'), ('cases/a.case', 'b.xly', 'c.xly'
                  ('cases/a.case', '../b.xly', 'sub/c.xly'), ('x/y/a.case', 'inc/b.xly', '../c.xly'), ('cases/a.case', 'inc/b.xly', 'more/c.xly', 'deep/er/d.xly')]
 CHAIN_ERRORS = [('no-such-instruction x', 'SYNTAX_ERROR', 65), ('including missing-file.xly', 'FILE_ACCESS_ERROR', 65), ('run % p @[UNDEFINED]@', 'VALIDATION_ERROR', 65),
                 ('stub-less-hard-error', 'HARD_ERROR', 128), ('cycle-to-root', 'FILE_ACCESS_ERROR', 65)]
+
+
+def _cli_symlink(res, case):
+    """An included file that is a symbolic link into another directory and itself includes a file by a relative name that exists (with other
+    contents) both beside the link and beside its target: whichever directory "the directory of the current source file" is taken to be, the file
+    and line NAMED in the report hold the source line SHOWN in it."""
+    import os
+    _, variant, ek, how = case
+    errline, ident, rc = [('no-such-instruction x', 'SYNTAX_ERROR', 65), ('run % p @[UNDEFINED]@', 'VALIDATION_ERROR', 65),
+                          ('file -rel-act clash/x\nfile -rel-act clash/x', 'HARD_ERROR', 128)][ek]
+    w = world.get()
+    w.reset()
+    procseam.SEAM.reset()
+    procseam.SEAM.default = {'exit': 0}
+    sub = 'lib' if variant == 'both' else 'lib/deep/er'
+    w.write('cases/x.case', "[setup]\ndef string S0 = 'v'\nincluding shared.xly\n")
+    w.write(sub + '/shared.xly', '# the shared file\nincluding local.xly\n')
+    os.symlink(os.path.relpath(str(w.home / sub / 'shared.xly'), str(w.home / 'cases')), str(w.home / 'cases' / 'shared.xly'))
+    w.write('cases/local.xly', '# beside the link\n\n' + errline + '   # cases\n'.replace('   # cases', '') )
+    w.write(sub + '/local.xly', errline.replace(' x', ' y').replace('UNDEFINED', 'UNDEF_IN_LIB').replace('clash', 'clash-lib') + '\n')
+    os.chdir(str(w.home))
+    o = cli.run(['cases/x.case' if how == 'relative' else str(w.home / 'cases/x.case')])
+    res.n += 1
+    res.nontrivial += 1
+    errs = []
+    if o.ident != ident or o.rc != rc:
+        errs.append('outcome %s (rc %s), expected %s' % (o.ident, o.rc, ident))
+    lines = o.err.split('\n')
+    locs = [(i, m.group(1), int(m.group(2))) for i, l in enumerate(lines) for m in [re.match(r'^(\S.*), line (\d+)$', l)] if m]
+    if not locs:
+        errs.append('the report names no file and line: %r' % o.err[:600])
+    else:
+        i, fname, n = locs[-1]
+        shown = next((l.strip() for l in lines[i + 1:] if l.strip()), None)
+        try:
+            with open(fname if os.path.isabs(fname) else str(w.home / fname)) as f:
+                held = f.read().split('\n')
+            actual = held[n - 1].strip() if 0 < n <= len(held) else '<no such line>'
+        except OSError as ex:
+            actual = '<%s>' % ex
+        if shown != actual:
+            errs.append('the report names %s, line %d and shows the source line %r; that line of that file is %r' % (fname, n, shown, actual))
+        names = [f_ for _, f_, _ in locs]
+        if not any(f_.endswith('x.case') for f_ in names) or not any(f_.endswith('shared.xly') for f_ in names):
+            errs.append('the chain of including files is incomplete: %s' % names)
+    res.outcomes[('cli-symlink', o.ident)] += 1
+    if errs:
+        res.violation(case, errs, {'stderr': o.err[:900]})
+    return res
 
 
 def _cli_chain(res, case):
